@@ -12,6 +12,8 @@ TIERS = {
     "thorough": {"mixed": (16, 24, 400), "queries": (8, 16, 300), "par": (8, 6, 250), "untrusted": (16, 16, 300)},
 }
 
+ENUM = {"quick": [(3, 16), (4, 16 * 24)], "thorough": [(3, 16), (4, 16), (5, 16 * 40)]}
+
 def scan_trace(path):
     """Cheap statistics of a trace (no judgement): per-op counts and per-property relevant events."""
     st = collections.Counter()
@@ -164,6 +166,10 @@ def run_world(tier, seed, scripts_only=None):
         for prof, (shards, hist, nops) in TIERS[tier].items():
             for i in range(shards):
                 jobs.append(("random", (seed * 1000 + i, hist, nops, prof), os.path.join(d, "%s%02d.ndjson" % (prof, i))))
+        # bounded-exhaustive histories over the small alphabet (depth, modulus): 16 slices each
+        for depth, mod in ENUM[tier]:
+            for i in range(16):
+                jobs.append(("enum", (depth, mod, i), os.path.join(d, "enum%d-%02d.ndjson" % (depth, i))))
         for s in sorted(glob.glob(os.path.join(VERIF, "regress", "world", "*.ndjson"))):
             jobs.append(("script", s, os.path.join(d, "reg-" + os.path.basename(s))))
         for s in sorted(glob.glob(os.path.join(WORK, "cover", "*.ndjson"))):
@@ -173,14 +179,18 @@ def run_world(tier, seed, scripts_only=None):
         kind, arg, out = job
         if kind == "random":
             p = sh([bin_path("worlddrv"), "random", str(arg[0]), str(arg[1]), str(arg[2]), out, arg[3]], timeout=1200, check=False)
+        elif kind == "enum":
+            p = sh([bin_path("worlddrv"), "enum", str(arg[0]), str(arg[1]), str(arg[2]), out], timeout=3000, check=False)
         else:
             p = sh([bin_path("worlddrv"), "script", arg, out], timeout=1200, check=False)
         if p.returncode == 2:
             raise ToolError("worlddrv harness error: " + p.stdout[-2000:])
         if p.returncode != 0:
             crash_recover(out, p.returncode)
-        res = tlc_trace("TraceWorld.tla", "TraceWorld.cfg", out, out + ".meta")
+        res = tlc_trace("TraceWorld.tla", "TraceWorld.cfg", out, out + ".meta", timeout=3000)
         st, sigs, sample = scan_trace(out)
+        if kind == "enum":
+            st["enumerated-histories(depth %d)" % arg[0]] = st.get("op:reset", 0)
         return {"trace": out, "fails": res["fails"], "stats": st, "sigs": sigs, "sample": sample,
                 "kind": kind, "src": arg if kind == "script" else None}
 
